@@ -328,12 +328,9 @@ class C10(Prop):
                     ax["kind"], ax["labels"] = base[ax["name"]]
         fn = rng.choice(["broadcast_arrays", "broadcast_arrays", "align_dims"])
         if rng.random() < 0.12 and base:
-            # a dimension without any label, in every array that has it
-            # TODO(defect): broadcast_arrays(a, b) where b has a zero-length axis that a lacks returns arrays of different
-            # shapes ((..., 1) and (..., 0)) when a comes first: _get_axes keeps a's inserted singleton axis as the common
-            # axis (`axis.size > 1` instead of `!= 1`). That form is skipped: for broadcast_arrays the label-less dimension
-            # is taken among those every array has
-            cands = sorted(d for d in base if fn == "align_dims" or all(d in [ax["name"] for ax in a["axes"]] for a in arrays))
+            # a dimension without any label, in every array that has it (the arrays that lack it are replicated along it
+            # zero times: _get_axes takes the label-less axis, not an inserted singleton, as the common axis)
+            cands = sorted(base)
             if cands:
                 d0 = rng.choice(cands)
                 for a in arrays:
